@@ -52,8 +52,10 @@ SPECS = [
     ("distanceXY", {"axis": "axis", "onesite": True}),
     ("angle", {}), ("angle", {"onesite": True}),
     ("dihedral", {}), ("dihedral", {"onesite": True}),
-    ("gyration", {}), ("rmsd", {}), ("eigenvector", {"fit": "self"}),
+    ("gyration", {}), ("rmsd", {}), ("eigenvector", {"fit": "self"}), ("eigenvector", {"fit": "self", "normalize": True}),
 ]
+# order of the component variants inside a violation key (so that a trailing-* pattern can name the offending component)
+PRIORITY = ["eigenvector", "rmsd", "gyration", "angle", "dihedral", "distanceXY", "distanceZ", "distance"]
 COMBO_TYPES = ["distance", "distanceZ", "distanceXY", "angle", "dihedral", "gyration", "rmsd", "eigenvector"]
 
 
@@ -65,6 +67,8 @@ def variant(ctype, o):
         v += "/onesite"
     if o.get("dummy"):
         v += "/dummy"
+    if o.get("normalize"):
+        v = "normalized_" + v
     return v
 
 
@@ -76,6 +80,7 @@ def add_onesite(text):
 def make_comp(rng, sysm, pool, ctype, o):
     oo = dict(o)
     onesite = oo.pop("onesite", False)
+    normalize = oo.pop("normalize", False)
     if ctype == "distance" and oo.get("dummy"):
         # corpus template marks dummy groups as unsupported; with oneSiteTotalForce they are documented to work
         c = corpus.COMPONENTS[ctype](rng, sysm, pool, {"dummy": True, "onesite": True})
@@ -86,6 +91,9 @@ def make_comp(rng, sysm, pool, ctype, o):
         c = corpus.COMPONENTS[ctype](rng, sysm, pool, oo)
         if onesite:
             c["text"] = add_onesite(c["text"])
+        if normalize:
+            first, rest = c["text"].split("\n", 1)
+            c["text"] = first + "\n    normalizeVector on\n" + rest
     c["ctype"] = ctype
     c["variant"] = variant(ctype, o)
     c["onesite"] = onesite
@@ -141,7 +149,7 @@ def gen_case(rng, idx, comps_spec, tier):
     multi = len(comps) > 1
     cvtext = corpus.colvar_block("cv1", [(c, (c["coeff"] if multi or c["coeff"] != 1.0 else None), None) for c in comps], extra)
     forcing = "linear {\n  name lin\n  colvars cv1\n  centers 0.0\n  forceConstant %s\n}\n" % fnum(rng.choice([-1, 1]) * rng.uniform(0.7, 9.0))
-    periodic = (len(comps) == 1 and comps[0]["ctype"] == "dihedral")
+    periodic = any(cp["ctype"] == "dihedral" for cp in comps)
     if periodic:
         forcing = ""     # linear biases are refused on periodic variables
     if periodic or rng.random() < 0.5:
@@ -179,7 +187,8 @@ def gen_case(rng, idx, comps_spec, tier):
     return dict(idx=idx, sysm=sysm, comps=comps, temp=temp, sub=sub, hide=hide, width=width, cvtext=cvtext, forcing=forcing,
                 other=other, group_atoms=group_atoms, outside=outside, X=X, F=F, F1=F1, F2=F2, F12=F12, ab=(a, b), F1G=F1G,
                 F1I=F1I, fd=fd and temp > 0.0 and not hide, cell=cell,
-                ckey=("combo:" if len(comps) > 1 else "") + "+".join(sorted(set(c["variant"] for c in comps))),
+                ckey="+".join(sorted(set(c["variant"] for c in comps), key=lambda v: (PRIORITY.index(v.split("/")[0]) if v.split("/")[0] in PRIORITY else -1, v)))
+                + (":combo" if len(comps) > 1 else ""),
                 vkey="+".join(("" if c["coeff"] == 1.0 else "-" if c["coeff"] == -1.0 else "%g*" % c["coeff"]) + c["variant"] for c in comps))
 
 
@@ -222,11 +231,11 @@ def scen_P(case):
 ZERO_BIAS = "harmonic {\n  name harm\n  colvars cv1\n  centers 1.0\n  forceConstant 0.0\n}\n"
 
 
-def scen_S(case, biases="full", with_fd=True):
+def scen_S(case, biases="full", with_fd=True, with_other=True):
     """same-step run; biases: "full" (the forcing biases), "zero" (a linear bias with force constant 0: applies exactly
     zero force), "none" (no bias at all).  Returns (scenario text, list of tags, one per step)"""
     s = header(case, "same") + "emit atoms off\nmodule\nconfig <<EOC\n" + case["cvtext"] + "\n" \
-        + {"full": case["forcing"], "zero": ZERO_BIAS, "none": ""}[biases] + case["other"] + "EOC\ninit\n"
+        + {"full": case["forcing"], "zero": ZERO_BIAS, "none": ""}[biases] + (case["other"] if with_other else "") + "EOC\ninit\n"
     tags = []
     n = case["sysm"]["natoms"]
     zero = "fext"
@@ -375,8 +384,8 @@ def ft_of(e):
 
 
 def check_case(c, case, runs):
-    (rP, evP, spP), (rS, evS, spS), (r0, ev0, sp0), (rN, evN, spN) = runs
-    files = [spP, spS, sp0, spN]
+    (rP, evP, spP), (rS, evS, spS), (r0, ev0, sp0), (rN, evN, spN), (rJ, evJ, spJ) = runs
+    files = [spP, spS, sp0, spN, spJ]
     vk = case["ckey"]      # class of the variable: component variants without signs
     full = case["vkey"]
     opt = "%s%s%s" % ("sub" if case["sub"] else "nosub", ":hide" if case["hide"] else "", ":T0" if case["temp"] == 0.0 else "")
@@ -399,7 +408,22 @@ def check_case(c, case, runs):
         viol(c, "total_force_missing_or_nonfinite:" + vk, "same-step run: %s" % [tg for tg, v in ftS.items() if v is None or not math.isfinite(v)][:3], files, payload)
         return False
     scale = max(abs(ftS[tg]) for tg in ftS if tg[0] in ("J", "F", "F1", "F2", "F12")) or 1.0
-    hidden_all = case["hide"] and case["sub"]
+    # reference values per geometry: Jacobian term Jt[t] and projection Lt[t] of the physical forces F_t.  When the
+    # Jacobian term is to be hidden they come from the run SJ (same variable without the hideJacobian request)
+    if case["hide"]:
+        stJ = steps_of(evJ)
+        if len(stJ) != len(tags0) or any(e["err"] for e in stJ):
+            c.inconc("reference run without hideJacobian failed for %s" % vk)
+            return False
+        ftJ = {tg: ft_of(e) for tg, e in zip(tags0, stJ)}
+        if any(v is None or not math.isfinite(v) for v in ftJ.values()):
+            c.inconc("reference run without hideJacobian has no finite total force for %s" % vk)
+            return False
+    else:
+        ftJ = ftS
+    Jt = [ftJ[("J", t)] for t in range(T_STEPS)]
+    Lt = [ftJ[("F", t)] - ftJ[("J", t)] for t in range(T_STEPS)]
+    scale = max(scale, max(abs(ftJ[("F", t)]) for t in range(T_STEPS)))
 
     # -- same-step: Colvars' own forces never enter (S vs S0 bitwise) --------------------------
     for tg, e in zip(tags0, st0):
@@ -429,7 +453,13 @@ def check_case(c, case, runs):
         if case["hide"] and J != 0.0:
             viol(c, "jacobian_not_hidden:same:" + ("sub" if case["sub"] else "nosub"),
                         "%s, hideJacobian requested, same-step convention, zero atomic forces at geometry %d: reported total force %.17g "
-                        "(the Jacobian term k_B T * jd) instead of 0" % (vk, t, J), files, payload)
+                        "(the Jacobian term k_B T * jd) instead of 0" % (full, t, J), files, payload)
+        elif case["hide"]:
+            if abs(ftS[("F", t)] - Lt[t]) > 1e-11 * (abs(ftJ[("F", t)]) + abs(Jt[t])) + 1e-12 * scale:
+                viol(c, "hidden_jacobian_projection:same:" + vk, "%s geometry %d: reported %.15g, projection of the atomic forces %.15g" % (
+                    full, t, ftS[("F", t)], Lt[t]), files, payload)
+                return False
+            c.bump("hidden_jacobian_same_checks")
         if len(case["comps"]) == 1 and not case["hide"]:
             comp = case["comps"][0]
             x = fl(S[("J", t)]["cv"]["cv1"]["x"][0]) / comp["coeff"]
@@ -461,7 +491,7 @@ def check_case(c, case, runs):
         J0 = ftS[("J", 0)]
         rnd = 64 * 2.2e-16 * (abs(J0) + scale) / H_FD * len(case["group_atoms"])
         tol = kT * (0.1 * spread + 2e-6 * max(abs(D), absum)) + rnd
-        if spread > 1e-3 * max(abs(D), absum, 1e-12):
+        if kT * spread > max(1e-3 * kT * max(abs(D), absum), 10.0 * rnd):
             c.inconc("divergence estimate not converged for %s (D_h %.6g, D_h/2 %.6g)" % (vk, Dh, Dh2))
         elif abs(J0 - kT * D) > tol:
             viol(c, "jacobian_vs_divergence:" + vk, "geometry 0: reported Jacobian term %.12g, k_B T * div(v) = %.12g (k_B T = %.6g, div %.12g, tol %.3g)" % (
@@ -473,7 +503,7 @@ def check_case(c, case, runs):
 
     # -- explicit projection model (distance family) ----------------------------------------------
     for t in range(T_STEPS):
-        L = ftS[("F", t)] - ftS[("J", t)]
+        L = Lt[t]
         tot = 0.0
         ab = 0.0
         ok = True
@@ -529,13 +559,14 @@ def check_case(c, case, runs):
         if fa == 0.0:
             c.inconc("no force applied in %s" % vk)
             return False
-        base = ftS[("F", t)]
+        jvis = 0.0 if (case["hide"] and case["sub"]) else Jt[t]
+        base = Lt[t] + jvis
         exp = base + (0.0 if case["sub"] else fa)
-        tol = 1e-11 * (abs(base) + abs(fa) + abs(ftS[("J", t)]) + abs(ft)) + 1e-12 * scale
+        tol = 1e-11 * (abs(ftJ[("F", t)]) + abs(fa) + abs(Jt[t]) + abs(ft)) + 1e-12 * scale
         zeroF = all(x == 0.0 for p in case["F"][t] for x in p)
         if abs(ft - exp) > tol:
             # classify: which wrong expectation does the observation match?
-            alt = {"wrong_step_geometry": ftS[("F", t + 1)] + (0.0 if case["sub"] else fa) if t + 1 < T_STEPS else None,
+            alt = {"wrong_step_geometry": (ftJ[("F", t + 1)] - (Jt[t + 1] if (case["hide"] and case["sub"]) else 0.0)) + (0.0 if case["sub"] else fa) if t + 1 < T_STEPS else None,
                    "applied_force_not_subtracted": base + fa if case["sub"] else None,
                    "applied_force_missing": base if not case["sub"] else None}
             kind = "closed_loop"
@@ -543,8 +574,8 @@ def check_case(c, case, runs):
                 if v is not None and abs(ft - v) <= tol:
                     kind = k
             viol(c, "%s:%s:%s:%s" % (kind, vk, opt, "closed" if zeroF else "fext"),
-                        "step %d: reported total force %.15g; expected %.15g = same-step measurement at geometry %d (%.15g, of which Jacobian %.15g)"
-                        " %s force applied at step %d (%.15g)" % (t + 1, ft, exp, t, base, ftS[("J", t)], "without the" if case["sub"] else "+", t, fa),
+                        "%s step %d: reported total force %.15g; expected %.15g = projection of the physical forces at geometry %d (%.15g) + "
+                        "Jacobian term (%.15g) %s force applied at step %d (%.15g)" % (full, t + 1, ft, exp, t, Lt[t], jvis, "without the" if case["sub"] else "+", t, fa),
                         files, payload)
             return False
         c.bump("closed_loop_checks" if zeroF else "prev_step_fext_checks")
@@ -552,7 +583,7 @@ def check_case(c, case, runs):
             # hidden on request: what is reported beyond the projection of the physical forces is the sum of
             # the biases' forces (no Jacobian term)
             fb = sum(fl(bv["f"][0][0]) for bn, bv in e0["bias"].items() if bv["f"])
-            L = ftS[("F", t)] - ftS[("J", t)]
+            L = Lt[t]
             exp_h = L + (0.0 if case["sub"] else fb)
             if abs(ft - exp_h) > tol + 1e-11 * abs(fb):
                 viol(c, "jacobian_not_hidden:prev:" + ("sub" if case["sub"] else "nosub"),
@@ -646,7 +677,10 @@ def run(tier, replay):
         rs = common.run_esim("plain", scen_S(case)[0], wd, "S", timeout=600)
         r0 = common.run_esim("plain", scen_S(case, biases="zero", with_fd=False)[0], wd, "S0", timeout=300)
         rn = common.run_esim("plain", scen_S(case, biases="none", with_fd=False)[0], wd, "SN", timeout=300)
-        return rp, rs, r0, rn
+        rj = rn
+        if case["hide"]:
+            rj = common.run_esim("plain", scen_S(case, biases="zero", with_fd=False, with_other=False)[0], wd, "SJ", timeout=300)
+        return rp, rs, r0, rn, rj
 
     res = common.pmap(do, cases)
     for case, runs in zip(cases, res):
